@@ -136,6 +136,7 @@ func cmdExec(args []string) {
 	patience := fs.Int("patience", 3000, "ms the incremental primary solver gets before the query goes to the one-shot portfolio")
 	budget := fs.Int("budget", 600, "wall-clock budget per entry in seconds (0 = none); exceeding it truncates the exploration")
 	freeSched := fs.Bool("freesched", false, "free choice of the next thread at blocking points (default: delay-bounded round-robin)")
+	thorough := fs.Bool("thorough", false, "thorough tier (vThorough() is true)")
 	knownS := fs.String("known", "", "comma-separated ids of open known findings (vKnown)")
 	seed := fs.Int("seed", 0, "solver random seed")
 	cpuprof := fs.String("cpuprofile", "", "write CPU profile")
@@ -169,7 +170,7 @@ func cmdExec(args []string) {
 			os.Exit(3)
 		}
 		cfg := Config{Harness: entry, MaxPaths: *maxPaths, UnwindLimit: *unwind, Preempt: *preempt, StepLimit: *steps,
-			Workers: *workers, SolverBin: *solver, Fallback: splitNE(*fallback), QueryMs: *queryMs, MaxViol: *maxViol, KeepScripts: *cross != "", Witnesses: *witnesses, RelaxTrunc: *relax, PatienceMs: *patience, BudgetS: *budget, FreeSched: *freeSched, Known: splitNE(*knownS), Seed: *seed, Verbose: *verbose}
+			Workers: *workers, SolverBin: *solver, Fallback: splitNE(*fallback), QueryMs: *queryMs, MaxViol: *maxViol, KeepScripts: *cross != "", Witnesses: *witnesses, RelaxTrunc: *relax, PatienceMs: *patience, BudgetS: *budget, FreeSched: *freeSched, Thorough: *thorough, Known: splitNE(*knownS), Seed: *seed, Verbose: *verbose}
 		eng := &Engine{prog: prog, cfg: cfg, res: NewResults(), entry: fn}
 		t1 := time.Now()
 		eng.Run()
